@@ -70,6 +70,8 @@ class Interp:
         self.by_thread = {}
         self.user_threads = []
         self.held = {}
+        if spec.get("hold_refs", True):
+            run.keepalive = self      # like module-level globals of a script
         del REDUCER_LOG[:]
 
     # ------------------------------------------------------------ helpers
@@ -144,6 +146,8 @@ class Interp:
                         pending=len(info["pending"]),
                         registered=sorted(info["processes"]))
         procs = ex._processes
+        if prev_state is not None:
+            prev_state = {k: v for k, v in prev_state.items() if k != "ident"}
         return dict(n=known["n"], id=ex.executor_id, same=(prev is ex), prev=prev_state,
                     old=alive_old, max_workers=ex._max_workers,
                     broken=ex._flags.broken is not None, shutdown=ex._flags.shutdown,
@@ -405,12 +409,19 @@ class Interp:
             cur.api = None
             self.obs.event(thread=th, i=i, op=name, phase="ret", r=r)
 
-    def main(self):
-        threads = self.spec["threads"]
-        for n, ops in enumerate(threads[1:], 1):
+    def op_start_users(self, th, o):
+        if self.user_threads:
+            return {}
+        for n, ops in enumerate(self.spec["threads"][1:], 1):
             t = threading.Thread(target=self.run_thread, args=(n, ops), name="user%d" % n)
             self.user_threads.append(t)
             t.start()
+        return {"n": len(self.user_threads)}
+
+    def main(self):
+        threads = self.spec["threads"]
+        if not any(o["op"] == "start_users" for o in threads[0]):
+            self.op_start_users(0, {})
         try:
             self.run_thread(0, threads[0])
         finally:
